@@ -19,25 +19,28 @@ TESTS = ["TTrue", "TFalse", "TUnknown"]
 ITERS = ["IEmpty", "INonEmpty", "IUnknown"]
 TEST_TXT = {"TTrue": "True", "TFalse": "0", "TUnknown": "c()"}
 ITER_TXT = {"IEmpty": "[]", "INonEmpty": "[1, 2]", "IUnknown": "it()"}
+PAT_TXT = {"PatOpaque": "K()", "PatWild": "_"}
 
 # ---------------------------------------------------------------------------------------------
 # statement terms:
 # ("pass",) ("call",) ("return",) ("raise",) ("break",) ("continue",) ("assert", t)
 # ("if", t, body, orelse) ("while", t, body, orelse) ("for", it, body, orelse) ("with", body)
 # ("try", body, [handler bodies], orelse, final) ("def", body)
+# ("match", [(pattern, guard, body) ...])  pattern "PatOpaque" (may or may not match: printed as a class pattern
+#   whose isinstance test is drawn from the script) | "PatWild" (`_`); guard None | a test tag
 
 
 def s_text(s, ind=0, tick=False) -> str:
     p = "    " * ind
     k = s[0]
 
-    def blk(b, loop=False):
+    def blk(b, loop=False, extra=0):
         lines = ""
         if loop and tick:
             lines += "    " * (ind + 1) + "tick()\n"
         if not b:
-            return lines + "    " * (ind + 1) + "pass\n" if not lines else lines
-        return lines + "".join(s_text(x, ind + 1, tick) for x in b)
+            return lines + "    " * (ind + 1 + extra) + "pass\n" if not lines else lines
+        return lines + "".join(s_text(x, ind + 1 + extra, tick) for x in b)
 
     if k == "pass":
         return p + "pass\n"
@@ -82,6 +85,12 @@ def s_text(s, ind=0, tick=False) -> str:
         return out
     if k == "def":
         return p + "def h():\n" + blk(s[1])
+    if k == "match":
+        out = p + "match m():\n"
+        for pat, g, b in s[1]:
+            out += (p + "    case " + PAT_TXT[pat] + ("" if g is None else f" if {TEST_TXT[g]}") + ":\n"
+                    + blk(b, extra=1))
+        return out
     raise ValueError(s)
 
 
@@ -106,6 +115,9 @@ def s_coq(s) -> str:
         return f"(STry {B(s[1])} {glist(s[2], B)} {B(s[3])} {B(s[4])})"
     if k == "def":
         return f"(SDef {B(s[1])})"
+    if k == "match":
+        return "(SMatch " + glist(s[1], lambda c: f"({c[0]}, {'MGNone' if c[1] is None else '(MGIf ' + c[1] + ')'}, "
+                                                  f"{B(c[2])})") + ")"
     raise ValueError(s)
 
 
@@ -329,6 +341,77 @@ def loops_with_compound_child():
             yield ("if", "TUnknown", [ch] + tail, [("raise",)])
 
 
+# ---- match statements (seeded/C01-d): cases with break / continue / return / raise / pass / call bodies, with and
+# without an irrefutable last case, alone, under every kind of loop, around loops, below if / with / try
+OPQ, WILD = ("PatOpaque", None), ("PatWild", None)
+CASE_KINDS = [OPQ, ("PatOpaque", "TUnknown"), WILD, ("PatWild", "TUnknown"), ("PatWild", "TTrue"), ("PatWild", "TFalse")]
+KINDS_FIRST = [OPQ, ("PatOpaque", "TUnknown"), ("PatWild", "TUnknown"), ("PatWild", "TFalse")]
+KINDS_LAST = [OPQ, WILD, ("PatWild", "TTrue")]
+LEAVES5 = [("pass",), ("return",), ("raise",), ("break",), ("continue",)]
+
+
+def mcase(kind, body):
+    return (kind[0], kind[1], body)
+
+
+def match_family():
+    L = LEAVES
+    out = []
+    # (a) bare match statements
+    one = [("match", [mcase(k, [x])]) for k in CASE_KINDS for x in L]
+    two = [("match", [mcase(k1, [x]), mcase(k2, [y])]) for k1 in KINDS_FIRST for k2 in KINDS_LAST for x in L for y in L]
+    three = [("match", [mcase(OPQ, [x]), mcase(OPQ, [y]), mcase(WILD, [z])])
+             for x in LEAVES5[1:] for y in LEAVES5[1:] for z in LEAVES5[1:]]
+    out += one + two + three
+    # (b) a match statement as the first statement of every kind of loop
+    inner = [("match", [mcase(k, [x])]) for k in (OPQ, WILD, ("PatWild", "TUnknown")) for x in L]
+    inner += [("match", [mcase(k1, [x]), mcase(k2, [y])]) for k1 in (OPQ, ("PatWild", "TFalse")) for k2 in (OPQ, WILD)
+              for x in LEAVES5 for y in LEAVES5]
+    for m in inner:
+        for tail in ([], [("return",)], [("call",)]):
+            out.append(("while", "TTrue", [m] + tail, []))
+            out.append(("while", "TUnknown", [m] + tail, []))
+            out.append(("for", "INonEmpty", [m] + tail, []))
+            out.append(("for", "IUnknown", [m] + tail, []))
+    # (c) the other way round: a loop inside a case (its breaks are its own, those of its else clause are not)
+    for lk, lt in (("while", "TTrue"), ("while", "TUnknown"), ("for", "INonEmpty"), ("for", "IUnknown")):
+        for x in L:
+            for o in ([], [("break",)], [("continue",)], [("pass",)]):
+                loop = (lk, lt, [x], o)
+                out.append(("match", [mcase(OPQ, [loop])]))
+                out.append(("while", "TTrue", [("match", [mcase(OPQ, [loop])])], []))
+                out.append(("while", "TTrue", [("match", [mcase(OPQ, [("pass",)]), mcase(WILD, [loop])])], []))
+                out.append(("for", "INonEmpty", [("match", [mcase(OPQ, [loop])]), ("return",)], []))
+    # (d) below if / with / try inside a loop; (e) match in match
+    for k in (OPQ, WILD):
+        for x in LEAVES5:
+            m = ("match", [mcase(k, [x])])
+            wrapped = [("if", "TUnknown", [m], []), ("if", "TUnknown", [("pass",)], [m]), ("with", [m]),
+                       ("try", [m], [[("pass",)]], [], []), ("try", [("call",)], [[m]], [], []),
+                       ("try", [("pass",)], [], [], [m]), ("match", [mcase(OPQ, [m])]),
+                       ("match", [mcase(OPQ, [("pass",)]), mcase(WILD, [m])])]
+            for w in wrapped:
+                out.append(("while", "TTrue", [w], []))
+                out.append(("for", "INonEmpty", [w, ("return",)], []))
+    return out
+
+
+# the minimal witnesses of seeded/C01-d (they run first in the end-to-end oracle)
+MATCH_WITNESSES = [
+    ("while", "TTrue", [("match", [mcase(OPQ, [("break",)])])], []),
+    ("for", "INonEmpty", [("match", [mcase(OPQ, [("continue",)])]), ("return",)], []),
+    ("while", "TTrue", [("call",), ("match", [mcase(OPQ, [("call",)]), mcase(WILD, [("break",)])])], []),
+]
+
+
+def has_match(s) -> bool:
+    if isinstance(s, tuple):
+        return s[0] == "match" or any(has_match(x) for x in s[1:])
+    if isinstance(s, list):
+        return any(has_match(x) for x in s)
+    return False
+
+
 def rand_stmt(rnd, depth):
     if depth <= 0 or rnd.random() < 0.3:
         r = rnd.random()
@@ -338,7 +421,11 @@ def rand_stmt(rnd, depth):
 
     def blk(lo=1, hi=3):
         return [rand_stmt(rnd, depth - 1) for _ in range(rnd.randint(lo, hi))]
-    k = rnd.choice(["if", "if", "while", "while", "for", "for", "with", "try", "def"])
+    k = rnd.choice(["if", "if", "while", "while", "for", "for", "with", "try", "def", "match", "match"])
+    if k == "match":
+        n = rnd.randint(1, 3)
+        cases = [mcase(rnd.choice(KINDS_FIRST), blk(1, 2)) for _ in range(n - 1)]
+        return ("match", cases + [mcase(rnd.choice(KINDS_LAST + KINDS_FIRST), blk(1, 2))])
     if k == "if":
         return ("if", rnd.choice(TESTS), blk(), blk(0, 2))
     if k == "while":
@@ -449,7 +536,14 @@ def explore(s, suppress: bool, max_len=9, max_ticks=5):
                     return bool(draw())
                 return False
 
-        env = {"c": c, "g": g, "it": it, "tick": tick, "cm": cm, "E": _E}
+        class _KM(type):
+            def __instancecheck__(cls, inst):      # the opaque pattern `case K():` may or may not match
+                return bool(draw())
+
+        class K(metaclass=_KM):
+            pass
+
+        env = {"c": c, "g": g, "it": it, "tick": tick, "cm": cm, "E": _E, "K": K, "m": object}
         exec(code, env)
         runs += 1
         try:
@@ -530,7 +624,14 @@ def behaviours(src, suppress: bool, max_len=8, max_ticks=4):
                     return bool(draw())
                 return False
 
-        env = {"c": c, "g": g, "it": it, "tick": tick, "cm": cm, "E": _E, "after": after}
+        class _KM(type):
+            def __instancecheck__(cls, inst):
+                return bool(draw())
+
+        class K(metaclass=_KM):
+            pass
+
+        env = {"c": c, "g": g, "it": it, "tick": tick, "cm": cm, "E": _E, "after": after, "K": K, "m": object}
         exec(code, env)
         try:
             r = env["f"]()
@@ -632,6 +733,11 @@ BLOCK_POOL = LEAVES + [
     ("while", "TTrue", [("if", "TUnknown", [("break",)], [])], []),
     ("for", "INonEmpty", [("return",)], []), ("for", "IEmpty", [("return",)], []),
     ("with", [("raise",)]), ("try", [("return",)], [], [], [("pass",)]),
+    ("while", "TTrue", [("match", [mcase(OPQ, [("break",)])])], []),
+    ("while", "TTrue", [("match", [mcase(OPQ, [("return",)]), mcase(WILD, [("call",)])])], []),
+    ("for", "INonEmpty", [("match", [mcase(WILD, [("continue",)])]), ("return",)], []),
+    ("for", "INonEmpty", [("match", [mcase(OPQ, [("call",)])]), ("return",)], []),
+    ("match", [mcase(OPQ, [("return",)]), mcase(WILD, [("raise",)])]),
 ]
 
 
@@ -742,7 +848,9 @@ def check(run: common.Run):
     rnd = random.Random(run.seed)
 
     xs, xshapes = iter_shapes(run)
+    mshapes = [s for s in match_family() if compiles(s)]
     stmts = [s for s in itertools.chain(depth1(), loops_with_compound_child(), xshapes) if compiles(s)]
+    stmts = MATCH_WITNESSES + mshapes + stmts
     n_exh = len(stmts)
     elements_bad = check_elements(wd, xs)
     nrand = 3000 if run.tier == "quick" else 40000
@@ -753,9 +861,12 @@ def check(run: common.Run):
         stmts.append(s)
     hist = Counter(s[0] for s in stmts)
     hist["for-over-iterable-expression"] = len(xshapes)
+    hist["match-family"] = len(mshapes)
+    hist["with-match-statement"] = sum(1 for s in stmts if has_match(s))
 
     model = model_eval(wd, stmts, "flow")
     disagreements, sem_bad, prop_fail, known_hits = [], [], [], []
+    flag_diff, judged_blocking = [], []      # shapes for the failing-input search / the match family's e2e sweep
     distinct = set()
     n_exec = 0
     imprecise = 0
@@ -770,6 +881,10 @@ def check(run: common.Run):
             flags_cmp = flags
         if flags_cmp != m["flags"]:
             disagreements.append({"stmt": src, "impl": flags, "model": m["flags"]})
+            if flags_cmp[:3] != m["flags"][:3] and len(flag_diff) < 80:
+                flag_diff.append(s)
+        elif idx < len(MATCH_WITNESSES) + len(mshapes) and any(flags[:3]):
+            judged_blocking.append(s)
         if flags[0] or flags[1] or flags[2]:
             distinct.add(src)
         if idx >= exec_budget:
@@ -785,7 +900,7 @@ def check(run: common.Run):
                 imprecise += 1
         # the property itself, on the real implementation
         if flags[0] and "N" in obs0:
-            prop_fail.append({"stmt": src, "observed": sorted(obs0)})
+            prop_fail.append({"stmt": src, "observed": sorted(obs0), "term": s})
         elif flags[0] and "N" in obs1:
             known_hits.append({"stmt": src, "observed": sorted(obs1)})
 
@@ -794,7 +909,11 @@ def check(run: common.Run):
     step = 13 if run.tier == "quick" else 1
     xcand = [s for s in xshapes if s[2] in ([("return",)], [("raise",)])]
     xcand = FIXED_ITER_WITNESSES + (xcand[::5] if run.tier == "quick" else xcand)
-    e2e_fail, e2e_known, n_e2e, n_e2e_rw = flow_end_to_end(run, mods, FIXED_FLOW_WITNESSES + xcand + cand[::step])
+    # the match family: every loop shape the implementation judges blocking (a third of them in the quick tier), and --
+    # the failing-input search -- every shape on which implementation and model disagree about is_blocking
+    mcand = MATCH_WITNESSES + flag_diff + (judged_blocking[::3] if run.tier == "quick" else judged_blocking)
+    e2e_fail, e2e_known, n_e2e, n_e2e_rw = flow_end_to_end(
+        run, mods, mcand + FIXED_FLOW_WITNESSES + xcand + cand[::step])
     known_hits += [{"stmt": k["stmt"], "observed": k["only_after"]} for k in e2e_known]
 
     cons_bad, n_cons_a, n_cons_b = check_consumers(run, mods, wd)
@@ -846,7 +965,10 @@ def check(run: common.Run):
         rule=("statement shapes: ALL depth-1 compound statements over the leaves {pass, call, return, raise, break, "
               "continue} with bodies of length 1-2 and else-blocks of length 0-1 (if/while x 3 tests, for x 3 "
               "iterables, with, try/except/finally, def), ALL loops/ifs whose body is [compound child, optional "
-              "leaf], plus seeded random trees of depth <=3. Each shape: core.is_blocking under parents "
+              "leaf], the match family (bare match statements of 1-3 cases with opaque / irrefutable patterns and "
+              "absent / literal / unknown guards; a match as first statement of while True / while c / for literal / "
+              "for unknown; loops inside cases; match below if / with / try / match inside a loop), "
+              "plus seeded random trees of depth <=3. Each shape: core.is_blocking under parents "
               "None/For/While and core._may_leave_iteration vs the model; every path of the instrumented statement "
               "executed under CPython (scripts of the unknown tests/iterables/calls explored exhaustively up to 9 "
               "draws) and compared with FlowModel.outcomes. Non-trivial = judged blocking under some parent; "
@@ -893,7 +1015,7 @@ def check(run: common.Run):
         "the split of a function body at its first blocking statement inside safe_callable_names is computed by the "
         "harness with the real core.is_blocking and handed to the model",
         "regenerated coq/generated/Tables.v (SAFE_CALLABLES) -- fail-closed dumper"]
-    cov["unmodelled"] = ["try / match / async statements (has_side_effect answers True for them)",
+    cov["unmodelled"] = ["try / match / async statements in has_side_effect (it answers True for them)",
                          "the traversal order of parsing.iter_bodies_recursive (only which bodies are visited matters)",
                          "other consumers of is_blocking / has_side_effect: remove_redundant_else, swap_if_else, "
                          "breakout_common_code_in_ifs, remove_dead_ifs, literal_value's precondition"]
@@ -921,6 +1043,13 @@ def replay(path: str) -> int:
                 print("is_blocking now:", bool(mods["core"].is_blocking(node)))
         except SyntaxError:
             pass
+        if "term" in data and data.get("site") == "core.is_blocking":
+            _, flags = impl_flags(mods, data["term"])
+            obs, _ = explore(data["term"], suppress=False)
+            print("is_blocking(None/For/While), _may_leave_iteration now:", flags, "-- outcomes observed:", sorted(obs))
+            if flags[0] and "N" in obs:
+                print("the statement judged impossible to get past completes normally: still failing")
+                rc = 1
         if "def f():" in src:
             with common.quiet():
                 out = mods["fixes"].delete_unreachable_code(src)
